@@ -982,6 +982,19 @@ func gen(r *hx.Rng, n int, tier string) []string {
 				t2.Value = noisyReencode(r, formatTypeOfURL(url).Descriptor(), t2.Value, 0)
 				add(paramsLine("wire", t2))
 			}
+			if isRSAURL(url) && !strings.Contains(url, "Composite") && r.Chance(60) {
+				// a public exponent other than F4 is part of the parameters and must survive serialization
+				// (the catalogue and randomizeFormat keep F4 so that keys can be generated)
+				t2 := proto.Clone(t).(*tinkpb.KeyTemplate)
+				m := formatTypeOfURL(url).New()
+				if proto.Unmarshal(t2.Value, m.Interface()) == nil {
+					if pm, pf := fieldByPath(m, "public_exponent"); pm != nil {
+						pm.Set(pf, protoreflect.ValueOfBytes(hx.PickS(r, [][]byte{{1, 0, 3}, {1, 0, 0xff}, {0x7f, 0xff, 0xff, 0xff}, {2, 0, 1}})))
+						t2.Value = detMarshal(m.Interface())
+						add(paramsLine("exponent", t2))
+					}
+				}
+			}
 		case k < 75: // wire decoder
 			var md protoreflect.MessageDescriptor
 			var name string
